@@ -293,7 +293,10 @@ static int build_scenario(sc_scn_t *sc, const cfg_t *c, vt_rng_t *rng,
 	int ur = sc_unknown(sc, rng, r, radius, vg);
 	int ul = sc_unknown(sc, rng, l, radius, vg);
 	int trm = strcmp(c->topo, "TRM") == 0;
-	int kr = trm ? sc_scalar(sc, rand_gamma(rng, 0.6, 1.0)) : -1;
+	/* the known reflect: predefined OPEN / SHORT or a scalar parameter */
+	int kind_kr = vt_below(rng, 3);
+	int kr = !trm ? -1 : kind_kr == 0 ? SC_OPEN : kind_kr == 1 ? SC_SHORT :
+	    sc_scalar(sc, rand_gamma(rng, 0.6, 1.0));
 	int km = trm ? SC_MATCH : sc_scalar(sc, rand_gamma(rng, 0.1, 0.3));
 
 	for (int k = 0; k < 3; ++k) {
